@@ -34,6 +34,12 @@ func genSchema(r *gen.Rand) schema {
 		s.Types = append(s.Types, t)
 		q.Fields = append(q.Fields, gfield{Name: strings.ToLower(names[i]), Type: names[i], File: gen.Pick(r, files)})
 	}
+	// a plain model type (no resolvers), as in most schemas
+	if r.Chance(2, 3) {
+		f := gen.Pick(r, files)
+		s.Types = append(s.Types, gtype{Name: "Settings", File: f, Plain: true, Fields: []gfield{{Name: "theme", Type: "String", File: f}}})
+		q.Fields = append(q.Fields, gfield{Name: "settings", Type: "Settings", File: f})
+	}
 	s.Types = append([]gtype{q}, s.Types...)
 	return s
 }
@@ -50,7 +56,7 @@ func evolve(r *gen.Rand, s schema, addsOnly bool) (schema, []evolution) {
 	s = s.clone()
 	counter := 0
 	for i := 0; i < n; i++ {
-		k := r.Intn(6)
+		k := r.Intn(7)
 		if addsOnly {
 			k = r.Intn(2)
 		}
@@ -108,6 +114,12 @@ func evolve(r *gen.Rand, s schema, addsOnly bool) (schema, []evolution) {
 			}
 			evs = append(evs, evolution{"move-field", t.Name + "." + t.Fields[j].Name + " " + t.Fields[j].File + " -> " + nf})
 			t.Fields[j].File = nf
+		case 6: // the fields of a type stop being resolvers; the type stays
+			if ti == 0 || t.Plain {
+				continue
+			}
+			t.Plain = true
+			evs = append(evs, evolution{"fields-stop-being-resolvers", t.Name})
 		case 5: // remove a type (never Query)
 			if ti == 0 || len(s.Types) < 3 {
 				continue
@@ -151,7 +163,7 @@ func liveOf(s schema, layout string) []liveFile {
 		return m[fn]
 	}
 	for _, t := range s.Types {
-		if len(t.Fields) == 0 {
+		if len(t.Fields) == 0 || t.Plain {
 			continue
 		}
 		lf := get(t.File)
@@ -181,7 +193,7 @@ func (l liveFile) coq() string {
 	for _, a := range l.Access {
 		as = append(as, cstr(a))
 	}
-	return fmt.Sprintf("{| l_file := %s; l_methods := %s; l_structs := %s; l_access := %s |}", cstr(l.File), gen.List(ms), gen.List(ss), gen.List(as))
+	return fmt.Sprintf("{| l_file := %s; l_methods := %s; l_structs := %s; l_access := %s; l_root := %s |}", cstr(l.File), gen.List(ms), gen.List(ss), gen.List(as), gen.Bool(l.File == "resolver.go"))
 }
 
 // ---- one scenario ----------------------------------------------------------------------------------------------
@@ -266,7 +278,9 @@ func runScenario(root string, idx int, seed uint64, layout string, wild, addsOnl
 			return fail("regenerated-file-not-valid-go", "after regeneration "+f.Name+" is not valid Go: "+f.ParseErr)
 		}
 	}
-	if genErr != nil {
+	// the generator's last step type-checks the whole package; code the user still has to adapt after fields or
+	// types went away fails it, which the property allows (it promises compilation after adds-only changes only)
+	if genErr != nil && !(strings.Contains(genOut, "validation failed") && !addsOnly) {
 		res.descr.GenError = genOut
 		return fail("regeneration-fails", "regeneration over user-edited resolver files failed: "+genOut)
 	}
@@ -277,7 +291,7 @@ func runScenario(root string, idx int, seed uint64, layout string, wild, addsOnl
 	}
 	// repeated regeneration changes nothing more
 	for k := 0; k < 2; k++ {
-		if out, err := p.generate(); err != nil {
+		if out, err := p.generate(); err != nil && !(strings.Contains(out, "validation failed") && !addsOnly) {
 			return fail("regeneration-fails", "a repeated regeneration failed: "+out)
 		}
 		again, err := parseAll(p.resolverFiles())
